@@ -27,7 +27,7 @@ func init() {
 }
 
 func runC18(c *mon.Ctx) {
-	nvals := c.N(20_000, 60_000)
+	nvals := c.N(20_000, 200_000)
 	// built messages are kept across later builds: a value returned by SysEx() must stay what it was
 	var prevBt, prevCopy []byte
 	var prevDesc any
